@@ -25,7 +25,7 @@ def definedTok (env : Env) (n : String) : Tok := numTok (if env n then "1" else 
 
 /-- what `term()` of the model returns for the leaf's token -/
 def litVal (l : Lit) : Eval.Val := match Eval.literal l.spell with | .ok v => v | .error _ => default
-def chrVal (c : CharLit) : Eval.Val := match c.chars with | [ch] => ⟨false, ch.toNat⟩ | _ => default
+def chrVal (c : CharLit) : Eval.Val := match characterValue c.chars with | .ok n => ⟨false, n⟩ | .error _ => default
 
 def toClimb (env : Env) : CExpr.Ast → Climb.Ast Eval.Val
   | .lit l => .leaf [numTok l.spell] (litVal l)
@@ -54,9 +54,10 @@ def renderSrc : CExpr.Ast → List Tok
   | .bin op l r => renderSrc l ++ opTok op.sym :: renderSrc r
   | .tern c t e => renderSrc c ++ opTok "?" :: (renderSrc t ++ opTok ":" :: renderSrc e)
 
-/-! ### recorded known-finding classes (DESIGN section 6) -/
+/-! ### input classes: escaped character constants (former D6), recorded known finding D8 (DESIGN section 6) -/
 
-/-- D6: a character constant written with an escape sequence -/
+/-- a character constant written with an escape sequence (the class of the former finding D6, repaired in the
+    code; kept as a descriptor of the generated inputs, no theorem excludes it any more) -/
 def usesEscapedChar : CExpr.Ast → Bool
   | .chr c => match c with | .plain _ => false | _ => true
   | .lit _ | .ident _ | .defd _ _ => false
